@@ -113,6 +113,7 @@ type FuncContract struct {
 	EntryGhost []GhostUpdate
 	Pure       bool
 	Holds      []string
+	Keeps      []string // types whose heap components opaque callees of this function cannot reach (trusted)
 	MayPanic   bool
 	Line       int
 	File       string
@@ -186,7 +187,7 @@ func parseContractFile(path, pkg string) (*ContractFile, error) {
 	// join continuation lines: a line that does not start with a keyword continues the previous one
 	kw := map[string]bool{"func": true, "requires": true, "ensures": true, "assigns": true, "ghost": true, "ghostparam": true,
 		"loop": true, "call": true, "trusted": true, "pred": true, "lemma": true, "pure": true, "maypanic": true,
-		"guarded_by": true, "return": true, "note": true, "entry": true, "upred": true, "holds": true}
+		"guarded_by": true, "return": true, "note": true, "entry": true, "upred": true, "holds": true, "keeps": true}
 	var joined []rawLine
 	for _, r := range raws {
 		first := r.text
@@ -250,6 +251,15 @@ func parseContractFile(path, pkg string) (*ContractFile, error) {
 				a = strings.TrimSpace(a)
 				if a != "" {
 					cur.Assigns = append(cur.Assigns, a)
+				}
+			}
+		case "keeps":
+			if cur == nil {
+				return nil, fail(fmt.Errorf("clause outside func"))
+			}
+			for _, a := range splitTop(rest, ',') {
+				if a = strings.TrimSpace(a); a != "" {
+					cur.Keeps = append(cur.Keeps, a)
 				}
 			}
 		case "holds":
